@@ -188,7 +188,10 @@ def get_solution(
             reverse = rxn.reverse_id
             rxn_index.append(forward)
             fluxes[i] = var_primals[forward] - var_primals[reverse]
-            reduced[i] = var_duals[forward] - var_duals[reverse]
+            # The reduced cost of the reverse variable is always the negative of
+            # the one of the forward variable, which is the reduced cost of the
+            # net flux. Their difference would be twice that value.
+            reduced[i] = var_duals[forward]
         met_index = []
         constr_duals = model.solver.shadow_prices
         for i, met in enumerate(metabolites):
